@@ -6,6 +6,7 @@ import (
 	"crypto/sha256"
 	"encoding/hex"
 	"sort"
+	"strconv"
 	"testing"
 
 	"github.com/Query-farm/vgi-rpc-go/vgirpc"
@@ -146,8 +147,18 @@ func genC09(t *rapid.T) c09Case {
 	n := rapid.IntRange(0, 12).Draw(t, "nregs")
 	names := rapid.Permutation(c09Names).Draw(t, "names")
 	kinds := []string{"unary", "void", "producer", "producer_h", "exchange", "exchange_h", "dynamic"}
+	var earlier []*arrow.Schema
 	sch := func(label string) *lib.SchemaIPC {
-		s := lib.PackSchema(lib.GenSchema(t, 0, 3, 1, lib.TypeOpts{}))
+		var as *arrow.Schema
+		if len(earlier) > 0 && rapid.IntRange(0, 2).Draw(t, "sibling?") == 0 {
+			// a schema that differs from one registered earlier only in what
+			// coarse comparisons overlook: metadata, child field attributes
+			as = c09Sibling(earlier[rapid.IntRange(0, len(earlier)-1).Draw(t, "sibof")], rapid.IntRange(0, 3).Draw(t, "sibvar"), strconv.Itoa(len(earlier)))
+		} else {
+			as = lib.GenSchema(t, 0, 3, 1, lib.TypeOpts{})
+		}
+		earlier = append(earlier, as)
+		s := lib.PackSchema(as)
 		return &s
 	}
 	for i := 0; i < n; i++ {
@@ -174,12 +185,56 @@ func genC09(t *rapid.T) c09Case {
 	return c
 }
 
+// c09Sibling returns base with one attribute changed that leaves names, types
+// and top-level nullability alone.
+func c09Sibling(base *arrow.Schema, variant int, tag string) *arrow.Schema {
+	fields := append([]arrow.Field{}, base.Fields()...)
+	md := base.Metadata()
+	switch {
+	case variant == 0 || len(fields) == 0:
+		md = arrow.NewMetadata(append(append([]string{}, md.Keys()...), "revision"), append(append([]string{}, md.Values()...), tag))
+	case variant == 1:
+		f := fields[0]
+		f.Metadata = arrow.NewMetadata(append(append([]string{}, f.Metadata.Keys()...), "unit"), append(append([]string{}, f.Metadata.Values()...), "u"+tag))
+		fields[0] = f
+	default:
+		changed := false
+		for i, f := range fields {
+			if lt, ok := f.Type.(*arrow.ListType); ok {
+				ef := lt.ElemField()
+				if variant == 2 {
+					ef.Nullable = !ef.Nullable
+				} else {
+					ef.Metadata = arrow.NewMetadata([]string{"elem"}, []string{tag})
+				}
+				f.Type = arrow.ListOfField(ef)
+				fields[i] = f
+				changed = true
+				break
+			}
+		}
+		if !changed {
+			return c09Sibling(base, 1, tag)
+		}
+	}
+	return arrow.NewSchema(fields, &md)
+}
+
 type c09Row struct {
 	Name, Type        string
 	HasReturn, HasHdr bool
 	IsExch            any
 	Params, Res, Hdr  []byte
 	HdrNull           bool
+}
+
+func c09HasFieldMeta(s *arrow.Schema) bool {
+	for _, f := range s.Fields() {
+		if f.Metadata.Len() > 0 {
+			return true
+		}
+	}
+	return false
 }
 
 func refHash(protocolName string, rows []c09Row) string {
@@ -366,6 +421,14 @@ func runC09(c c09Case) (out lib.Outcome) {
 			out.Violate("C09/result-schema-bytes", "%s: %v", r.Name, err)
 		} else if d := lib.SchemaDiff(wantRes, rs); d != "" {
 			out.Violate(lib.Keyf("C09", "result-schema", reg.Kind), "%s result/output: %s", r.Name, d)
+		} else if reg.Out != nil {
+			// a schema registered as an object is described exactly: metadata and child attributes too
+			if d := lib.StrictSchemaDiff(wantRes, rs); d != "" {
+				out.Violate(lib.Keyf("C09", "result-schema-exact", reg.Kind), "%s output: %s", r.Name, d)
+			}
+			if wantRes.Metadata().Len() > 0 || c09HasFieldMeta(wantRes) {
+				out.Label("registered-schema-with-metadata")
+			}
 		}
 		if reg.Header == nil {
 			if !r.HdrNull {
@@ -377,6 +440,8 @@ func runC09(c c09Case) (out lib.Outcome) {
 				out.Violate("C09/header-schema", "%s header schema missing/undecodable (null=%v err=%v)", r.Name, r.HdrNull, err)
 			} else if d := lib.SchemaDiff(reg.Header.Unpack(), hs); d != "" {
 				out.Violate("C09/header-schema", "%s header: %s", r.Name, d)
+			} else if d := lib.StrictSchemaDiff(reg.Header.Unpack(), hs); d != "" {
+				out.Violate("C09/header-schema-exact", "%s header: %s", r.Name, d)
 			}
 		}
 	}
@@ -427,7 +492,7 @@ var propC09 = lib.Prop[c09Case]{
 		"oracle: decoded __describe__ rows = sorted registered names once each with type/flags and schema bytes decoding to the registered schemas; protocol_hash = my independent digest of the documented framing over the served rows = Server.ProtocolHash(), identical across registration orders and between pipe and HTTP. Non-trivial: >=3 methods of >=2 kinds with >=1 header.",
 	Gen:          genC09,
 	Run:          runC09,
-	Essential:    []string{"rich-surface", "empty-surface"},
+	Essential:    []string{"rich-surface", "empty-surface", "registered-schema-with-metadata"},
 	EssentialMin: 200,
 	Assumptions:  []string{"the hash framing is pinned from describe.go's documentation/CLAUDE.md (no Python reference in the sandbox)", "cross-process determinism is argued from the absence of process-dependent inputs, not run in a second process in the quick tier"},
 }
